@@ -816,6 +816,100 @@ Definition cds_spec_ok (stored : list loc) : bool :=
   match cds_reload stored with Ok l => list_eqb loc_eqb l stored | Err _ => false end.
 
 
+(* ---------- optional qualifiers ---------- *)
+(* a qualifier as the qualifier dictionary of a SeqFeature holds it: None = the key is absent, Some l = its value list *)
+Definition qual := option (list str).
+
+(* the "is not None" pattern:
+     AntismashFeature.to_biopython   if self.score is not None:  mine["score"] = [str(self.score)]
+                                     if self.evalue is not None: mine["evalue"] = [f"{self.evalue:.2E}"]
+     Feature.to_biopython            if self._original_codon_start is not None: quals["codon_start"] = [str(start + 1)]
+     CandidateCluster.to_biopython   if self.smiles_structure is not None: qualifiers["SMILES"] = [...]; same for polymer
+   fmt is the text form of the value (Python's float formatting is third party: for floats the harness supplies the
+   text and fmt is the identity) *)
+Definition optq_write {A} (fmt : A -> str) (v : option A) : qual :=
+  match v with Some x => Some [fmt x] | None => None end.
+(* AntismashFeature.from_biopython   if "evalue" in leftovers: feature.evalue = float(leftovers.pop("evalue")[0])
+   Feature.from_biopython            if "codon_start" in leftovers: start = leftovers.pop("codon_start")[0] ...
+   ([0] of an empty list: IndexError) *)
+Definition optq_read {A} (parse : str -> res A) (q : qual) : res (option A) :=
+  match q with
+  | None => Ok None
+  | Some [] => Err E_Index
+  | Some (t :: _) => do x <- parse t; Ok (Some x)
+  end.
+
+(* codon_start: the attribute holds int(text) - 1, the qualifier str(attribute + 1) *)
+Definition codon_fmt (v : Z) : str := str_of_int (v + 1).
+Definition codon_parse (t : str) : res Z := do n <- parse_int t; Ok (n - 1).
+
+(* the truthiness pattern of the string attributes:
+     AntismashFeature.to_biopython   if self.database: mine["database"] = [self.database]      (label, detection, ...)
+     AntismashFeature.from_biopython feature.database = leftovers.pop("database", [""])[0] or None *)
+Definition truthy_write (v : option str) : qual :=
+  match v with Some (c :: s) => Some [c :: s] | _ => None end.
+Definition truthy_read (q : qual) : res (option str) :=
+  match q with
+  | None => Ok None
+  | Some [] => Err E_Index
+  | Some (t :: _) => Ok (match t with [] => None | _ => Some t end)
+  end.
+
+Definition text_ok (t : str) : res str := Ok t.
+Definition id_str (t : str) : str := t.
+
+(* the property on one optional qualifier, evaluated on what an implementation wrote: reading it gives the value back *)
+Definition optq_spec_ok {A} (eqb : A -> A -> bool) (parse : str -> res A) (v : option A) (written : qual) : bool :=
+  match optq_read parse written, v with
+  | Ok None, None => true
+  | Ok (Some x), Some y => eqb x y
+  | _, _ => false
+  end.
+Definition truthy_spec_ok (v : option str) (written : qual) : bool :=
+  match v with
+  | Some [] => true                                  (* outside the guard of C10_truthy_string_qualifier_partial *)
+  | _ => match truthy_read written, v with
+         | Ok None, None => true
+         | Ok (Some x), Some y => str_eqb x y
+         | _, _ => false
+         end
+  end.
+
+Definition dQual : dec qual := dOpt (dList dStr).
+Definition eQual (q : qual) : list Z := eOpt (eList eStr) q.
+
+(* ---------- sorted(all_features): the comparison on the MIXED list ---------- *)
+(* Record.to_biopython sorts collections and plain features together; `a < b` runs type(a).__lt__:
+     a collection (mkind 2)  -> CDSCollection.__lt__ : containment short cuts both ways, key (start, -length)
+     a plain feature (0), a source (1) -> Feature.__lt__ : key (start, length), a source first among equal keys
+   (C04.Model.collection_lt / feature_lt on the locations; the `other in self` short cut of a collection for its own
+   children is not represented: a child lies inside its parent, where the containment short cut answers the same
+   unless the extents are equal).  A comparison that raises counts as "not less". *)
+Record mfeat := mkMfeat { mkind : Z; mloc : loc }.
+Definition mixed_lt (x y : mfeat) : bool :=
+  match (if mkind x =? 2 then C04.Model.collection_lt (mloc x) (mloc y)
+         else C04.Model.feature_lt (mkind x =? 1) (mloc x) (mloc y)) with
+  | Ok b => b
+  | Err _ => false
+  end.
+Definition is_coll (x : mfeat) : bool := mkind x =? 2.
+(* a < b, b < c, not a < c, with collections and plain features both involved *)
+Definition bad_triple (a b c : mfeat) : bool :=
+  mixed_lt a b && mixed_lt b c && negb (mixed_lt a c) &&
+  (is_coll a || is_coll b || is_coll c) && negb (is_coll a && is_coll b && is_coll c).
+(* the class test of finding C10-F70 mixed_order_not_transitive, on the record's features (kind, location) *)
+Definition has_bad_triple (l : list mfeat) : bool :=
+  existsb (fun a =>
+    let above := filter (fun b => mixed_lt a b) l in
+    let notabove := filter (fun c => negb (mixed_lt a c)) l in
+    existsb (fun b => existsb (fun c => bad_triple a b c) notabove) above) l.
+
+Definition dMfeat : dec mfeat := fun l =>
+  match l with
+  | k :: r => match dLoc r with Some (x, r') => Some (mkMfeat k x, r') | None => None end
+  | [] => None
+  end.
+
 Definition dGfa : dec gfa := fun l =>
   match l with
   | f :: r => match dPair dStr (dPair (dOpt dStr) dStr) r with
@@ -889,5 +983,43 @@ Definition run_C10 (fn : Z) (l : list Z) : list Z :=
                                  | None => bad_input end
            | Some (_, _) => [1]
            | None => bad_input end
+  (* optional qualifiers.  16: a text-valued "is not None" qualifier written (kind is bookkeeping of the harness);
+     17: read; 18 / 19: the truthiness pattern of string attributes; 20 / 21: codon_start *)
+  | 16 => match l with
+          | _kind :: r => match dOpt dStr r with Some (v, []) => eQual (optq_write id_str v) | _ => bad_input end
+          | _ => bad_input end
+  | 116 => match l with
+           | _kind :: r => match dOpt dStr r with
+                           | Some (v, o) => match dQual o with
+                                            | Some (q, _) => eBool (optq_spec_ok str_eqb text_ok v q)
+                                            | None => [0] end
+                           | None => bad_input end
+           | _ => bad_input end
+  | 17 => match l with
+          | _kind :: r => match dQual r with Some (q, []) => eRes (eOpt eStr) (optq_read text_ok q) | _ => bad_input end
+          | _ => bad_input end
+  | 18 => match l with
+          | _kind :: r => match dOpt dStr r with Some (v, []) => eQual (truthy_write v) | _ => bad_input end
+          | _ => bad_input end
+  | 118 => match l with
+           | _kind :: r => match dOpt dStr r with
+                           | Some (v, o) => match dQual o with
+                                            | Some (q, _) => eBool (truthy_spec_ok v q)
+                                            | None => [0] end
+                           | None => bad_input end
+           | _ => bad_input end
+  | 19 => match l with
+          | _kind :: r => match dQual r with Some (q, []) => eRes (eOpt eStr) (truthy_read q) | _ => bad_input end
+          | _ => bad_input end
+  | 20 => match dOpt dZ l with Some (v, []) => eQual (optq_write codon_fmt v) | _ => bad_input end
+  | 120 => match dOpt dZ l with
+           | Some (v, o) => match dQual o with
+                            | Some (q, _) => eBool (optq_spec_ok Z.eqb codon_parse v q)
+                            | None => [0] end
+           | None => bad_input end
+  | 21 => match dQual l with Some (q, []) => eRes (eOpt (fun n => [n])) (optq_read codon_parse q) | _ => bad_input end
+  (* 22: the class test of C10-F70 on a record's features; 23: one comparison on the mixed list *)
+  | 22 => match dList dMfeat l with Some (fs, []) => eBool (has_bad_triple fs) | _ => bad_input end
+  | 23 => match dPair dMfeat dMfeat l with Some ((a, b), []) => eBool (mixed_lt a b) | _ => bad_input end
   | _ => bad_input
   end.
